@@ -22,7 +22,7 @@ use rand_core::SeedableRng;
 use serde_json::json;
 use vcore::{rng_for, CaseOut, Ctx, Viol};
 
-use crate::util::{fhex, ghex, horner, len_class, omega_for, outer_workers, powers_of, seeded_vec, GPool, POOLS_ALL};
+use crate::util::{fhex, ghex, horner, len_class, omega_for, powers_of, seeded_vec, GPool, MIXED_POOL_WORKERS, POOLS_ALL};
 
 // ------------------------------------------------------------------------------------------------
 // MSMKZG: append_term / scale / add_msm / eval / check / from_many / from_base
@@ -36,11 +36,16 @@ where
     let seed = cx.seed;
     let lens: Vec<usize> = vec![0, 1, 2, 3, 5, 17, 33, 70];
     let pfx = if name == "bls12-381" { String::new() } else { format!("{name}:") };
-    for t in POOLS_ALL {
-        let cases: Vec<(String, usize)> = lens.iter().map(|n| (format!("{name}:len={n}:pool={t}"), *n)).collect();
+    {
+        let mut cases: Vec<(String, (usize, usize))> = vec![];
+        for n in &lens {
+            for t in POOLS_ALL {
+                cases.push((format!("{name}:len={n}:pool={t}"), (t, *n)));
+            }
+        }
         let pfx = &pfx;
-        cx.run_cases_with(&format!("msmkzg-algebra-{name}-pool{t}"), &cases, outer_workers(t), |n| {
-            let n = *n;
+        cx.run_cases_with(&format!("msmkzg-algebra-{name}"), &cases, MIXED_POOL_WORKERS, |(t, n)| {
+            let (t, n) = (*t, *n);
             let mut out = CaseOut::batch();
             let gp = GPool::new(t);
             let seen = gp.observed_threads();
@@ -184,11 +189,16 @@ where
     let kmax: u32 = cx.tier.pick(6, 8);
 
     // ---- (a) unsafe_setup with a seeded ChaCha20: the toxic scalar s is the first draw, so it is known here
-    for t in POOLS_ALL {
-        let cases: Vec<(String, u32)> = (0..=kmax).map(|k| (format!("{name}:k={k}:pool={t}"), k)).collect();
+    {
+        let mut cases: Vec<(String, (usize, u32))> = vec![];
+        for k in 0..=kmax {
+            for t in POOLS_ALL {
+                cases.push((format!("{name}:k={k}:pool={t}"), (t, k)));
+            }
+        }
         let pfx = &pfx;
-        cx.run_cases_with(&format!("kzg-setup-commit-{name}-pool{t}"), &cases, outer_workers(t), |k| {
-            let k = *k;
+        cx.run_cases_with(&format!("kzg-setup-commit-{name}"), &cases, MIXED_POOL_WORKERS, |(t, k)| {
+            let (t, k) = (*t, *k);
             let n = 1usize << k;
             let mut out = CaseOut::batch();
             let gp = GPool::new(t);
@@ -307,12 +317,16 @@ where
     let params = ParamsKZG::<E>::from_parts(k, g_mono, Some(g_lagr), E::G2::generator(), E::G2::generator());
     let mut lens: Vec<usize> = (0..=70).collect();
     lens.extend([127, 128, 129, 255, 256, 257, 1000, 4095, 4096]);
-    for t in sweep_pools {
-        let t = *t;
-        let cases: Vec<(String, usize)> = lens.iter().map(|l| (format!("{name}:len={l}:pool={t}"), *l)).collect();
+    {
+        let mut cases: Vec<(String, (usize, usize))> = vec![];
+        for l in &lens {
+            for t in sweep_pools {
+                cases.push((format!("{name}:len={l}:pool={t}"), (*t, *l)));
+            }
+        }
         let (params, b_mono, b_lagr, pfx) = (&params, &b_mono, &b_lagr, &pfx);
-        cx.run_cases_with(&format!("kzg-commit-sweep-{name}-pool{t}"), &cases, outer_workers(t), |l| {
-            let l = *l;
+        cx.run_cases_with(&format!("kzg-commit-sweep-{name}"), &cases, MIXED_POOL_WORKERS, |(t, l)| {
+            let (t, l) = (*t, *l);
             let mut out = CaseOut::batch();
             let gp = GPool::new(t);
             let seen = gp.observed_threads();
